@@ -38,7 +38,7 @@ PROPS = {
     },
     'C19': {
         'level': 'proof',
-        'explanation': 'CommandResult::combine is sticky; process_input folds the outcomes of the executed batches (ghost log): no batch is executed after a fatal outcome because `?` returns, result == fold_out(outcomes); CommandBuilder::execute classifies the exit status by the table of the statement (unit xexec); xargs_main maps outcomes to 0/123/124/125/126/127/1 (unit xexec).',
+        'explanation': 'CommandResult::combine is sticky; process_input folds the outcomes of the executed batches (ghost log): no batch is executed after a fatal outcome because `?` returns, result == fold_out(outcomes); CommandBuilder::execute classifies the exit status by the table of the statement (unit xexec); xargs_main maps outcomes to 0/123/124/125/126/127/1 (unit xexec); the statements of do_xargs that choose the action (unit xaction, verbatim slice): the command words are run exactly as given, whatever the command is called, and the built-in echo stands in only when no command was given.',
         'assumptions': ['ExitStatus::{success, code, signal} consistency on unix (std)', 'the real From impls are one-liners checked against their FromSpecImpl companions (R15)', 'unit mainargs (fn main of src/xargs/main.rs, verbatim): xargs_main is reached with exactly the decoded argument vector, or the process ends with status 1 after a diagnostic; std::env::args() panics on non-Unicode arguments (modelled precondition), args_os()/into_string do not'],
         'not_decided': [],
     },
